@@ -722,6 +722,40 @@ func runC16(r *Run) {
 			}
 		})
 		r.Check(okMeter, "R3", fnID(rs)+"#gas-meter-limit", P.Pos(fnPos(rs)), "SDK gas meter limited by contract.Gas", "RunSetup does not install an SDK gas meter limited by the EVM contract's gas: Cosmos-side work would not be bounded by the gas the caller paid for")
+		// what is charged to the fresh meter up front (the gas the transaction's meter already shows: earlier messages of
+		// a multi-message Ethereum tx, ante reads) is part of its limit — otherwise it comes out of this call's gas
+		{
+			var limit ssa.Value
+			eachCall(rs, func(ci CallInfo) {
+				if ci.Name == "NewGasMeter" {
+					limit = argN(ci.Instr, 0)
+				}
+			})
+			okPre, nPre := true, 0
+			eachCall(rs, func(ci CallInfo) {
+				if ci.Name != "ConsumeGas" {
+					return
+				}
+				amt := ci.Instr.Common().Args[0]
+				pre := false
+				var src ssa.Value
+				backSlice(amt).Any(func(v ssa.Value) bool {
+					if c, ok := v.(*ssa.Call); ok && callInfo(c).Name == "GasConsumed" {
+						pre, src = true, v
+					}
+					return pre
+				})
+				if !pre {
+					return
+				}
+				nPre++
+				if limit == nil || !backSlice(limit).Has(src) {
+					okPre = false
+				}
+			})
+			r.Check(okPre && nPre >= 1, "R3", fnID(rs)+"#gas-meter-limit-covers-precharge", P.Pos(fnPos(rs)), "limit = gas already consumed + contract.Gas",
+				"RunSetup charges the gas already shown by the transaction's meter to the fresh meter but does not include it in that meter's limit: in the second and later messages of a multi-message Ethereum transaction a precompile call has contract.Gas minus the earlier messages' gas, fails with a spurious out-of-gas, and the message is charged its whole gas limit")
+		}
 		okRO := false
 		// readOnly && isTransaction → ErrWriteProtection
 		eachInstr(rs, func(in ssa.Instruction) {
